@@ -1,3 +1,4 @@
+pub mod name;
 pub mod adj;
 pub mod conc;
 pub mod fuzz;
@@ -17,6 +18,7 @@ pub fn dispatch(t: &[&str]) -> String {
         "ram.parse" | "ram.wf" => ram::run(t),
         "sv.seq" | "sv.corr" => sv::run(t),
         "adj.run" => adj::run(t),
+        "name.resolve" => name::run(t),
         _ => "bad-op".into(),
     }
 }
